@@ -314,6 +314,10 @@ class Normalizer:
         if k == "dict":
             return patom(("dict",) + tuple(sorted(((self.canon(a), self.canon(b)) for a, b in n[1]), key=_key)))
         if k == "record":
+            nt = self.b.namedtuple_fields(n) if self.b is not None else None
+            if nt is not None:
+                # an instance of a NamedTuple class is the tuple of its fields (same pytree leaves in the same order, same unpacking)
+                return self._poly(("tuple", nt))
             return patom(("rec", n[1], tuple((f, self.canon(v)) for f, v in n[2])))
         if k == "update":
             return patom(("upd", self.canon(n[1]), tuple((p, self.canon(v)) for p, v in n[2])))
@@ -707,8 +711,71 @@ class Normalizer:
         return build(0, {})
 
     # -- calls ----------------------------------------------------------------
+    FOREIGN_METHOD_NAMES = {"init", "update", "sample", "log_prob", "prob", "entropy", "mode", "reset", "step", "render", "close", "apply", "mean", "replace",
+                            "get", "pop", "items", "keys", "values", "set", "add", "split", "join", "format", "copy", "index", "count"}
+
+    def _method_sig(self, name):
+        """(parameter names after self, {name: literal default}) of a method name every definition of which in the analysed package has the
+        same parameter list and defaults, and that is not also the name of a method of the libraries' own objects; else None. For such a
+        name `x.m(a, None)` and `x.m(a)` are one call when None is the declared default."""
+        import ast as _ast
+        tab = getattr(self, "_msigs", None)
+        if tab is None:
+            tab = self._msigs = {}
+        if name in tab:
+            return tab[name]
+        res = None
+        if self.b is not None and name not in ARRAY_METHODS and name not in self.FOREIGN_METHOD_NAMES and not name.startswith("__"):
+            sigs = set()
+            for ci in self.b.prog.classes.values():
+                fn = ci.methods.get(name)
+                if fn is None:
+                    continue
+                a = fn.args
+                if a.vararg is not None or a.kwarg is not None or ci.is_classmethod(name) or any(isinstance(d, _ast.Name) and d.id == "staticmethod" for d in fn.decorator_list):
+                    sigs.add(None)
+                    continue
+                pos = [x.arg for x in a.posonlyargs + a.args][1:]
+                dfl = {}
+                ok = True
+                nd = len(a.defaults)
+                allpos = [x.arg for x in a.posonlyargs + a.args]
+                for nm, d in list(zip(allpos[len(allpos) - nd:], a.defaults)) + [(x.arg, d) for x, d in zip(a.kwonlyargs, a.kw_defaults) if d is not None]:
+                    if isinstance(d, _ast.Constant) and (d.value is None or isinstance(d.value, (bool, int, float, str))):
+                        dfl[nm] = d.value
+                    else:
+                        ok = False
+                sigs.add((tuple(pos), tuple(x.arg for x in a.kwonlyargs), tuple(sorted(dfl.items(), key=repr))) if ok else None)
+            if len(sigs) == 1 and None not in sigs:
+                (pos, kwo, dfl), = sigs
+                res = (pos, kwo, dict(dfl))
+        tab[name] = res
+        return res
+
     def call(self, n) -> dict:
         f, args, kwargs = n[1], n[2], n[3]
+        if isinstance(f, tuple) and f and f[0] == "attr" and not any(isinstance(a_, tuple) and a_ and a_[0] == "star" for a_ in args) and all(k_ is not None for k_, _ in kwargs):
+            ms = self._method_sig(f[2])
+            if ms is not None and len(args) <= len(ms[0]):
+                pos, kwo, dfl = ms
+                bound = dict(zip(pos, args))
+                if not (set(bound) & {k_ for k_, _ in kwargs}) and all(k_ in pos or k_ in kwo for k_, _ in kwargs):
+                    bound.update(dict(kwargs))
+
+                    def is_default(nm, v):
+                        if nm not in dfl or not (isinstance(v, tuple) and v and v[0] == "const"):
+                            return False
+                        dv = v[1].v if isinstance(v[1], BoolConst) else v[1]
+                        return type(dv) is type(dfl[nm]) and dv == dfl[nm]
+                    kept = {nm: v for nm, v in bound.items() if not is_default(nm, v)}
+                    # the longest prefix of positional parameters that is still bound stays positional, the rest goes by keyword
+                    npos = 0
+                    while npos < len(pos) and pos[npos] in kept:
+                        npos += 1
+                    new_args = tuple(kept[nm] for nm in pos[:npos])
+                    new_kw = tuple(sorted(((nm, v) for nm, v in kept.items() if nm not in pos[:npos]), key=lambda kv: kv[0]))
+                    if (new_args, new_kw) != (tuple(args), tuple(kwargs)):
+                        return self.call(("call", f, new_args, new_kw))
         fname = None
         if isinstance(f, tuple) and f[0] == "global":
             fname = f[1]
@@ -849,6 +916,13 @@ class Normalizer:
         if fname == "functools.reduce" and len(args) == 3 and not kw and (args[0], args[2]) == (("global", "operator.mul"), ("const", 1)):
             # the left fold of a product from 1 is math.prod
             return self.call(("call", ("global", "math.prod"), (args[1],), ()))
+        if fname == "math.prod" and len(args) == 1 and not kwargs and isinstance(args[0], tuple) and args[0] and args[0][0] in ("tuple", "list") \
+                and not any(isinstance(x, tuple) and x and x[0] == "star" for x in args[0][1]):
+            # the product of a displayed sequence is the product of its elements (1 for the empty one)
+            out = ("const", 1)
+            for x in args[0][1]:
+                out = x if out == ("const", 1) else ("bin", "Mult", out, x)
+            return self._poly(out)
         if fname == "equinox.filter" and len(args) == 2 and not kw:
             # filter(tree, spec) is the first half of partition(tree, spec)
             return self._poly(("item", ("call", ("global", "equinox.partition"), tuple(args), ()), 0))
